@@ -111,8 +111,8 @@ class MergeForLoops(RewritePattern):
         if len(op.iter_args) != 0 or len(parent.iter_args) != 0:
             return
 
-        # the new ub of the parent op is ub * ub_parent
-        new_parent_ub = ConstantOp.from_int_and_width(ub * ub_parent, IndexType())
+        # the new ub of the parent op is ub * ub_parent (a negative ub is a zero-trip loop)
+        new_parent_ub = ConstantOp.from_int_and_width(max(ub, 0) * max(ub_parent, 0), IndexType())
         rewriter.insert_op(new_parent_ub, InsertPoint.before(parent))
         new_parent = ForOp(
             parent.lb,
